@@ -10,6 +10,7 @@ import (
 	"math/rand"
 	"os"
 	"strings"
+	"sync"
 
 	"github.com/biogo/biogo/morass"
 
@@ -62,10 +63,13 @@ func runFault(w *vt.W, id, cs, np int, conc bool, site string, k int, ac bool) {
 	count := 0
 	injected := false
 	hider := int64(0)
+	var hookMu sync.Mutex // background writers call the hook concurrently
 	morass.VerifStep = func(mm *morass.Morass, s string, i int) {
 		if mm != m {
 			return
 		}
+		hookMu.Lock()
+		defer hookMu.Unlock()
 		switch {
 		case site == "tempfile" && s == "write.recv":
 			if count == k && !injected {
@@ -168,8 +172,11 @@ func runFault(w *vt.W, id, cs, np int, conc bool, site string, k int, ac bool) {
 			got++
 		}
 	}
+	hookMu.Lock()
 	os.Rename(hidden, mdir)
+	wasInjected := injected
+	hookMu.Unlock()
 	complete := finalised && sorted && got == np && pushed == np
 	w.Emit(vt.Ev{"op": "faultrun", "id": id, "cs": cs, "npush": np, "conc": conc, "site": site, "k": k,
-		"injected": injected, "reported": reported, "pulled": got, "complete": complete})
+		"injected": wasInjected, "reported": reported, "pulled": got, "complete": complete})
 }
